@@ -261,6 +261,16 @@ func ZzC04() {
 		return err
 	}))
 	w.scan(true)
+	// the used flag of two of them (a taproot and a witness-key address): the
+	// marker must not carry the address id in the clear either
+	zzMust(w.update(func(ns walletdb.ReadWriteBucket) error {
+		if err := sm86.MarkUsed(ns, issued[0].Address()); err != nil {
+			return err
+		}
+		return sm.MarkUsed(ns, issued[1].Address())
+	}))
+	w.scan(true)
+	verifrt.Reach("marked-used")
 
 	// imported private key and secret scripts
 	priv, _ := btcec.PrivKeyFromBytes([]byte{0x11, 0x22, 0x33, 0x44, 0x55, 0x66, 0x77, 0x88, 0x99, 0xaa, 0xbb, 0xcc, 0xdd, 0xee, 0xff, 0x01,
